@@ -201,6 +201,7 @@ func cmdVC(args []string) int {
 		}
 		if *dump != "" && o.Name == *dump {
 			os.WriteFile("/tmp/gvc_dump.smt2", []byte(o.exec.query(o, true)), 0o644)
+			os.WriteFile("/tmp/gvc_dump_sliced.smt2", []byte(o.exec.slicedQuery(o, 2, true)), 0o644)
 			fmt.Println("           query written to /tmp/gvc_dump.smt2")
 		}
 	}
